@@ -141,7 +141,7 @@ def rule_comparison_pair(A, R, rule):
             n4 += 1
             R.ob(rule, "%s | the comparison is asked about the pair of jobs whose records it is given" % short(v["fn"]), not bad,
                  detail="; ".join(sorted(set(bad))[:3]), site=A.site(v))
-    R.floor(rule, "call sites of the configured comparison with known operands", n4, 3)
+    R.floor(rule, "call sites of the configured comparison with known operands", n4, 2)
 
 
 def dependency_checks(A):
@@ -221,7 +221,7 @@ def check_C15(A, R, tier):
         for v in run.by_kind("strategy_call"):
             if v["method"] == "is_history_altered":
                 seen.add((v["fn"], v["bb"]))
-    R.floor("R15.1", "call sites of the configured comparison", len(seen), 3)
+    R.floor("R15.1", "call sites of the configured comparison", len(seen), 2)
     # strategy implementations may use equality only as a shortcut to 'unaltered'
     impls = strategy_fn(A, "is_history_altered")
     R.floor("R15.1", "implementations of the configured comparison", len(impls), 1)
@@ -1211,7 +1211,7 @@ def check_C06(A, R, tier):
         for v in run.by_kind("panic"):
             if v["kind"].startswith("unwrap") and not v.get("possible", True):
                 nun += 1
-    R.floor("R6.3", "unwraps proven guarded (edge lookups between neighbours, split after contains, topological order)", nun, 5)
+    R.floor("R6.3", "unwraps proven guarded (edge lookups between neighbours, split after contains, topological order)", nun, 3)
     # R6.4 error discipline ---------------------------------------------------------------------------------
     sites = {}
     for (entry, label), run in runs:
@@ -1320,7 +1320,7 @@ def check_C06(A, R, tier):
             R.ob("R6.6", "%s | a consider signal is queued only after the pending signals were searched for one to the same job" % short(v["fn"]),
                  bool(scans), detail="two consider signals for one job can be pending in the same batch: the first makes the job ready, "
                                      "the second repeats the ready signal, which the handler rejects with an internal error", site=A.site(v))
-    R.floor("R6.6", "sites that queue a consider signal", n, 3)
+    R.floor("R6.6", "sites that queue a consider signal", n, 1)
     # R6.7 the history can be assembled for every way a job without output can end
     rule_history_after_any_outcome(A, R, "R6.7")
     # R6.9 (= R12.p) startup pruning is complete: a half-pruned chain of unused Ephemerals is later validated against records of
